@@ -56,6 +56,7 @@ pub struct VFileManager<'a> {
     pub disk: &'a BTreeMap<String, String>,
     pub cache: HashMap<BffFileName, Rc<ParsedModule>>,
     pub fetched: Vec<String>,
+    pub parse_failed: Vec<String>,
 }
 impl<'a> VFileManager<'a> {
     pub fn new(disk: &'a BTreeMap<String, String>) -> Self {
@@ -63,6 +64,7 @@ impl<'a> VFileManager<'a> {
             disk,
             cache: HashMap::new(),
             fetched: vec![],
+            parse_failed: vec![],
         }
     }
 }
@@ -79,7 +81,10 @@ impl FileManager for VFileManager<'_> {
                 self.cache.insert(name.clone(), f.clone());
                 Some(f)
             }
-            Err(_) => None,
+            Err(_) => {
+                self.parse_failed.push(name.to_string());
+                None
+            }
         }
     }
     fn get_existing_file(&self, name: &BffFileName) -> Option<Rc<ParsedModule>> {
